@@ -140,10 +140,15 @@ CONFUSABLE = [["length('Size')", "length(size)"], ["concat('a, b')", "concat('a'
               ["is_file + 1", "is_file - is_file"], ["kana(name) + 1", "kana(name) - kana(name)"], ["is_file * 5", "is_file"],
               ["contains('e') * 2 + 1", "contains('e')"]]
 BOOLEAN_PAIRS = ("is_file", "kana(", "contains(")
+# two spellings of one value: a leading minus negates its operand also when the operand is a size with a unit
+EQUAL_PAIRS = [["0 - fsize", "-fsize + 0"], ["0 - size", "-size + 0"], ["fsize * -1", "-fsize * 1"], ["0 - format_size(size)", "-format_size(size) + 0"]]
 
 
 @st.composite
 def literal_case_(draw):
+    if draw(st.sampled_from(range(8))) == 0:
+        tree = {nm: {"t": "f", "size": sz} for nm, sz in zip(draw(st.lists(st.sampled_from(_fnames), min_size=2, max_size=3, unique=True)), [4, 123, 1024])}
+        return {"kind": "literals", "tree": tree, "equal": list(draw(st.sampled_from(EQUAL_PAIRS)))}
     if draw(st.booleans()):
         pair = list(draw(st.sampled_from(CONFUSABLE)))
         if draw(st.booleans()):
@@ -167,6 +172,18 @@ def check_literals(case):
     os.mkdir(base)
     try:
         trees.materialize(base, case["tree"])
+        if "equal" in case:
+            got, q = run_select(out, base, case["equal"])
+            if got is None:
+                return out
+            for nm, cells in got.items():
+                if cells[0] != cells[1]:
+                    out.add("C15/leading-minus/two-spellings-differ", query=q, name=nm, cells=list(cells))
+                    break
+            out.nontrivial = True
+            out.classes = ["leading-minus-on-unit-value"]
+            out.sample = {"query": q}
+            return out
         if "pair" in case:
             cols = case["pair"] + case["company"]
             alone = []
